@@ -62,7 +62,7 @@ theorem fold_extend_spec (n : Nat) (refs : List Nat) (hrefs : ∀ s ∈ refs, s 
     res.lists.length = n + 1 ∧ (∀ s < n, res.get s = h0.get s) ∧
       res.get n = hh.get n ++ refs.flatMap h0.get := by
   induction refs generalizing hh with
-  | nil => simp [hlen, hold]
+  | nil => exact ⟨hlen, hold, by simp⟩
   | cons s rest ih =>
     have hs : s < n := hrefs s (by simp)
     have h1 : (hh.extend n (hh.get s)).lists.length = n + 1 := by rw [extend_length, hlen]
@@ -95,7 +95,13 @@ theorem filterMap_map_flatten (h : Heap) (parts : List (Option Nat)) :
     ((parts.map (Option.map h.get)).filterMap id).flatten = (parts.filterMap id).flatMap h.get := by
   induction parts with
   | nil => rfl
-  | cons p ps ih => cases p <;> simp [ih]
+  | cons p ps ih =>
+    cases p with
+    | none => simpa using ih
+    | some r =>
+      simp only [List.map_cons, Option.map_some, List.filterMap_cons, id, List.flatten_cons,
+        List.flatMap_cons]
+      rw [ih]
 
 /-- **A merged query is the cascade over the concatenation of the CURRENT constituent rule
     lists** (and touches no existing list object). -/
@@ -113,6 +119,7 @@ theorem mergedQuery_spec (T : Tables) (sp rsp : Char → Bool) (h : Heap) (parts
   refine ⟨p3, p2, ?_⟩
   unfold mergedQuery mergedRules
   simp only [p4, filterMap_map_flatten]
+  rfl
 
 /-- a session only mentions sheets that exist when it starts -/
 def OpOk (n : Nat) : SessOp → Prop
